@@ -96,10 +96,12 @@ type World struct {
 	nver      int
 	nextEnt   int
 
-	Stores   map[string]*MemStore
-	upSrv    *httptest.Server
-	UpAddr   string
-	handlers map[string]http.Handler
+	servers    map[string]interface{ Update(server.ServerOption) }
+	lastServer interface{ Update(server.ServerOption) }
+	Stores     map[string]*MemStore
+	upSrv      *httptest.Server
+	UpAddr     string
+	handlers   map[string]http.Handler
 	// keyName maps a concrete cache key to its model name
 	keyName map[string]string
 	// Tap sees every hook point first (decision-table runners that drive pike objects directly)
@@ -136,6 +138,7 @@ func New() *World {
 		dead:      map[int64]bool{},
 		Stores:    map[string]*MemStore{},
 		handlers:  map[string]http.Handler{},
+		servers:   map[string]interface{ Update(server.ServerOption) }{},
 		keyName:   map[string]string{},
 	}
 	w.clock = 1
@@ -318,9 +321,30 @@ func (w *World) chain(disp string, rec *httptest.ResponseRecorder, req *http.Req
 	}
 }
 
+// AddHandler registers a server (middleware chain) under a name usable as `disp` in Do
+func (w *World) AddHandler(name string, opt server.ServerOption) {
+	w.handlers[name] = w.newHandlerOpt(opt)
+	w.servers[name] = w.lastServer
+}
+
+// UpdateHandler reconfigures a running server (server.Update)
+func (w *World) UpdateHandler(name string, opt server.ServerOption) {
+	if s, ok := w.servers[name]; ok {
+		s.Update(opt)
+	}
+}
+
+// DropMemory recreates the dispatchers: everything in memory is gone, the stores stay
+func (w *World) DropMemory() { w.restartDispatchers() }
+
 // the middleware chain of server.Start, without the listener
 func (w *World) newHandler(cacheName string) http.Handler {
-	s := server.NewServer(server.ServerOption{Cache: cacheName, Locations: []string{"loc"}})
+	return w.newHandlerOpt(server.ServerOption{Cache: cacheName, Locations: []string{"loc"}})
+}
+
+func (w *World) newHandlerOpt(opt server.ServerOption) http.Handler {
+	s := server.NewServer(opt)
+	w.lastServer = s
 	e := elton.New()
 	e.Use(middleware.NewDefaultError())
 	e.Use(middleware.NewDefaultFresh())
@@ -787,7 +811,9 @@ func (w *World) upstreamHandler(rw http.ResponseWriter, req *http.Request) {
 	w.emitLocked(Event{"op": "UpEnd", "r": ri.Rid, "hasResp": true, "ttl": ttl})
 	w.mu.Unlock()
 	h.Set("X-Ver", strconv.Itoa(v))
-	h.Set("Content-Type", "text/plain")
+	if h.Get("Content-Type") == "" {
+		h.Set("Content-Type", "text/plain")
+	}
 	status := out.Status
 	if status == 0 {
 		status = 200
